@@ -423,7 +423,12 @@ impl ReaderBench {
   /// Adds another reader on the same topic: same TopicCache, same MessageReceiver. Returns its index.
   /// `transient_local`: the sibling requests Durability TransientLocal (it wants what existed before it), else Volatile.
   pub fn add_sibling(&mut self, flavor: Flavor, reliable: bool, transient_local: bool, reader_key: [u8; 3]) -> usize {
-    let cfg = RbCfg { flavor, reliable, history: self.cfg.history, max_samples: self.cfg.max_samples, reader_key };
+    let max_samples = self.cfg.max_samples;
+    self.add_sibling_with_limits(flavor, reliable, transient_local, reader_key, max_samples)
+  }
+  /// a second DataReader on the same topic (same TopicCache) whose own ResourceLimits differ from the first one's
+  pub fn add_sibling_with_limits(&mut self, flavor: Flavor, reliable: bool, transient_local: bool, reader_key: [u8; 3], max_samples: i32) -> usize {
+    let cfg = RbCfg { flavor, reliable, history: self.cfg.history, max_samples, reader_key };
     let mut qb = QosPolicyBuilder::new()
       .reliability(if reliable { policy::Reliability::Reliable { max_blocking_time: crate::Duration::from_millis(100) } } else { policy::Reliability::BestEffort })
       .durability(if transient_local { policy::Durability::TransientLocal } else { policy::Durability::Volatile });
